@@ -39,6 +39,60 @@ Example C03_redirect_example :
 Proof. exact (conj ex_redirect_3 ex_notfound_9). Qed.
 Print Assumptions C03_redirect_example.
 
+(* completeness, at full strength on the repaired code (werkzeug 0f9d43b, c350753): the outcome of
+   MapAdapter.match is classified exactly by what the rules admit -
+   - some rule serves the path (admits it directly or but for its trailing slash, for the request method
+     and protocol), or - with merge_slashes - the path with doubled slashes merged: a match or a redirect;
+   - nobody serves it: MethodNotAllowed with exactly the methods of the rules that admit the path
+     directly for another method, when there are such methods; else WebsocketMismatch when a rule admits
+     it for the other protocol; else NotFound.
+   uniform_merge: merge_slashes is a map-level setting (the domain of C03). *)
+Theorem C03_complete : forall h m a p me,
+  uniform_merge m -> classified m a p me (map_match h m a p me).
+Proof. exact complete. Qed.
+Print Assumptions C03_complete.
+
+Example C03_complete_example :
+  (uniform_merge ex_map /\ uniform_merge ex_map2)
+  /\ map_match no_hooks ex_map2 ex_adapter [47; 57] GET = NotFound.
+Proof. exact (conj ex_uniform ex_notfound_9). Qed.
+Print Assumptions C03_complete_example.
+
+(* NotFound is raised only when no rule serves the path; a rule that admits it directly for another
+   method then lists no method at all *)
+Theorem C03_notfound_only_if_unserved : forall h m a p me,
+  uniform_merge m -> map_match h m a p me = NotFound ->
+  forall r, In r (m_rules m) ->
+    ~ on_some_path m a p (serves m (upper me) (a_websocket a) r)
+    /\ (on_some_path m a p (wrong_method m (upper me) r) -> rmethods_of r = []).
+Proof. exact notfound_only_if_unserved. Qed.
+Print Assumptions C03_notfound_only_if_unserved.
+
+Example C03_empty_method_set_example :
+  map_match no_hooks (mk_map [ex_r4]) ex_adapter [47; 97] GET = NotFound
+  /\ wrong_method (mk_map [ex_r4]) GET ex_r4 (request_parts (mk_map [ex_r4]) ex_adapter [47; 97]).
+Proof. exact ex_empty_methods. Qed.
+Print Assumptions C03_empty_method_set_example.
+
+(* MethodNotAllowed: nobody serves the path, and the listed methods are exactly those of the rules
+   that admit it directly for another method *)
+Theorem C03_method_not_allowed : forall h m a p me ms,
+  uniform_merge m -> map_match h m a p me = MethodNotAllowed ms ->
+  nobody_serves m a p me /\ ms <> []
+  /\ forall x, In x ms <-> exists r, In r (m_rules m) /\ on_some_path m a p (wrong_method m (upper me) r) /\ In x (rmethods_of r).
+Proof. exact method_not_allowed_iff. Qed.
+Print Assumptions C03_method_not_allowed.
+
+(* a rule that serves the path is never shadowed into NotFound / MethodNotAllowed by the other rules
+   (Raised: the URL builder hook raised while canonicalising the match; impossible with no_hooks on maps
+   without alias rules) *)
+Theorem C03_served_never_refused : forall h m a p me r,
+  uniform_merge m -> In r (m_rules m) -> on_some_path m a p (serves m (upper me) (a_websocket a) r) ->
+  (exists r' vs, map_match h m a p me = Match r' vs) \/ (exists u, map_match h m a p me = RedirectTo u)
+  \/ (exists e, map_match h m a p me = Raised e).
+Proof. exact served_never_refused. Qed.
+Print Assumptions C03_served_never_refused.
+
 (* the regex texts, weights and part_isolating flags of the current source are the ones the
    language predicates and the priority order of the model stand for *)
 Theorem C03_patterns_pinned :
